@@ -1,5 +1,6 @@
 import LassoProofs.C02
 import LassoModel.Serde
+import LassoProofs.Lemmas.Config
 /-
   C10 — keys are dense and ordered; counts and iteration agree with them.
 -/
@@ -170,5 +171,12 @@ theorem iter_item_drops_one (l : List α) (x : α) :
       have := dropLast_append_last h
       have hl : l.length = (l.dropLast ++ [y]).length := by rw [this]
       simp at hl; simp; omega
+
+/-- The code this file's theorems are about is the same under every feature configuration: the regenerated
+census of conditional compilation contains import blocks, whole serde impls, optional-dependency impls and
+module declarations only, and no gate inside any function body (`Lemmas/Config.lean`). -/
+theorem same_code_under_every_feature_configuration :
+    (Extracted.cfgGates.all fun g => g.kind != .other) = true ∧ Extracted.bodyGates.isEmpty = true :=
+  Lasso.one_code_base_for_all_configurations
 
 end Lasso.C10
